@@ -43,54 +43,57 @@ Record st := mkSt {
   resp_failed : bool;
   resp_done : bool;
   requested : Z;
-  honored : Z
+  honored : Z;
+  dl_passed : bool
 }.
 
 Definition set_cctx (v : Z) (s : st) : st :=
-  {| cctx := v; cres := cres s; begun := begun s; req_sent := req_sent s; req_closed := req_closed s; cancel_notified := cancel_notified s; cancels_sent := cancels_sent s; resp_read := resp_read s; relay_alive := relay_alive s; conn_failed := conn_failed s; resp_avail := resp_avail s; resp_final := resp_final s; hstarted := hstarted s; hctx := hctx s; mex_reg := mex_reg s; resp_failed := resp_failed s; resp_done := resp_done s; requested := requested s; honored := honored s |}.
+  {| cctx := v; cres := cres s; begun := begun s; req_sent := req_sent s; req_closed := req_closed s; cancel_notified := cancel_notified s; cancels_sent := cancels_sent s; resp_read := resp_read s; relay_alive := relay_alive s; conn_failed := conn_failed s; resp_avail := resp_avail s; resp_final := resp_final s; hstarted := hstarted s; hctx := hctx s; mex_reg := mex_reg s; resp_failed := resp_failed s; resp_done := resp_done s; requested := requested s; honored := honored s; dl_passed := dl_passed s |}.
 Definition set_cres (v : option Z) (s : st) : st :=
-  {| cctx := cctx s; cres := v; begun := begun s; req_sent := req_sent s; req_closed := req_closed s; cancel_notified := cancel_notified s; cancels_sent := cancels_sent s; resp_read := resp_read s; relay_alive := relay_alive s; conn_failed := conn_failed s; resp_avail := resp_avail s; resp_final := resp_final s; hstarted := hstarted s; hctx := hctx s; mex_reg := mex_reg s; resp_failed := resp_failed s; resp_done := resp_done s; requested := requested s; honored := honored s |}.
+  {| cctx := cctx s; cres := v; begun := begun s; req_sent := req_sent s; req_closed := req_closed s; cancel_notified := cancel_notified s; cancels_sent := cancels_sent s; resp_read := resp_read s; relay_alive := relay_alive s; conn_failed := conn_failed s; resp_avail := resp_avail s; resp_final := resp_final s; hstarted := hstarted s; hctx := hctx s; mex_reg := mex_reg s; resp_failed := resp_failed s; resp_done := resp_done s; requested := requested s; honored := honored s; dl_passed := dl_passed s |}.
 Definition set_begun (v : bool) (s : st) : st :=
-  {| cctx := cctx s; cres := cres s; begun := v; req_sent := req_sent s; req_closed := req_closed s; cancel_notified := cancel_notified s; cancels_sent := cancels_sent s; resp_read := resp_read s; relay_alive := relay_alive s; conn_failed := conn_failed s; resp_avail := resp_avail s; resp_final := resp_final s; hstarted := hstarted s; hctx := hctx s; mex_reg := mex_reg s; resp_failed := resp_failed s; resp_done := resp_done s; requested := requested s; honored := honored s |}.
+  {| cctx := cctx s; cres := cres s; begun := v; req_sent := req_sent s; req_closed := req_closed s; cancel_notified := cancel_notified s; cancels_sent := cancels_sent s; resp_read := resp_read s; relay_alive := relay_alive s; conn_failed := conn_failed s; resp_avail := resp_avail s; resp_final := resp_final s; hstarted := hstarted s; hctx := hctx s; mex_reg := mex_reg s; resp_failed := resp_failed s; resp_done := resp_done s; requested := requested s; honored := honored s; dl_passed := dl_passed s |}.
 Definition set_req_sent (v : Z) (s : st) : st :=
-  {| cctx := cctx s; cres := cres s; begun := begun s; req_sent := v; req_closed := req_closed s; cancel_notified := cancel_notified s; cancels_sent := cancels_sent s; resp_read := resp_read s; relay_alive := relay_alive s; conn_failed := conn_failed s; resp_avail := resp_avail s; resp_final := resp_final s; hstarted := hstarted s; hctx := hctx s; mex_reg := mex_reg s; resp_failed := resp_failed s; resp_done := resp_done s; requested := requested s; honored := honored s |}.
+  {| cctx := cctx s; cres := cres s; begun := begun s; req_sent := v; req_closed := req_closed s; cancel_notified := cancel_notified s; cancels_sent := cancels_sent s; resp_read := resp_read s; relay_alive := relay_alive s; conn_failed := conn_failed s; resp_avail := resp_avail s; resp_final := resp_final s; hstarted := hstarted s; hctx := hctx s; mex_reg := mex_reg s; resp_failed := resp_failed s; resp_done := resp_done s; requested := requested s; honored := honored s; dl_passed := dl_passed s |}.
 Definition set_req_closed (v : bool) (s : st) : st :=
-  {| cctx := cctx s; cres := cres s; begun := begun s; req_sent := req_sent s; req_closed := v; cancel_notified := cancel_notified s; cancels_sent := cancels_sent s; resp_read := resp_read s; relay_alive := relay_alive s; conn_failed := conn_failed s; resp_avail := resp_avail s; resp_final := resp_final s; hstarted := hstarted s; hctx := hctx s; mex_reg := mex_reg s; resp_failed := resp_failed s; resp_done := resp_done s; requested := requested s; honored := honored s |}.
+  {| cctx := cctx s; cres := cres s; begun := begun s; req_sent := req_sent s; req_closed := v; cancel_notified := cancel_notified s; cancels_sent := cancels_sent s; resp_read := resp_read s; relay_alive := relay_alive s; conn_failed := conn_failed s; resp_avail := resp_avail s; resp_final := resp_final s; hstarted := hstarted s; hctx := hctx s; mex_reg := mex_reg s; resp_failed := resp_failed s; resp_done := resp_done s; requested := requested s; honored := honored s; dl_passed := dl_passed s |}.
 Definition set_cancel_notified (v : bool) (s : st) : st :=
-  {| cctx := cctx s; cres := cres s; begun := begun s; req_sent := req_sent s; req_closed := req_closed s; cancel_notified := v; cancels_sent := cancels_sent s; resp_read := resp_read s; relay_alive := relay_alive s; conn_failed := conn_failed s; resp_avail := resp_avail s; resp_final := resp_final s; hstarted := hstarted s; hctx := hctx s; mex_reg := mex_reg s; resp_failed := resp_failed s; resp_done := resp_done s; requested := requested s; honored := honored s |}.
+  {| cctx := cctx s; cres := cres s; begun := begun s; req_sent := req_sent s; req_closed := req_closed s; cancel_notified := v; cancels_sent := cancels_sent s; resp_read := resp_read s; relay_alive := relay_alive s; conn_failed := conn_failed s; resp_avail := resp_avail s; resp_final := resp_final s; hstarted := hstarted s; hctx := hctx s; mex_reg := mex_reg s; resp_failed := resp_failed s; resp_done := resp_done s; requested := requested s; honored := honored s; dl_passed := dl_passed s |}.
 Definition set_cancels_sent (v : Z) (s : st) : st :=
-  {| cctx := cctx s; cres := cres s; begun := begun s; req_sent := req_sent s; req_closed := req_closed s; cancel_notified := cancel_notified s; cancels_sent := v; resp_read := resp_read s; relay_alive := relay_alive s; conn_failed := conn_failed s; resp_avail := resp_avail s; resp_final := resp_final s; hstarted := hstarted s; hctx := hctx s; mex_reg := mex_reg s; resp_failed := resp_failed s; resp_done := resp_done s; requested := requested s; honored := honored s |}.
+  {| cctx := cctx s; cres := cres s; begun := begun s; req_sent := req_sent s; req_closed := req_closed s; cancel_notified := cancel_notified s; cancels_sent := v; resp_read := resp_read s; relay_alive := relay_alive s; conn_failed := conn_failed s; resp_avail := resp_avail s; resp_final := resp_final s; hstarted := hstarted s; hctx := hctx s; mex_reg := mex_reg s; resp_failed := resp_failed s; resp_done := resp_done s; requested := requested s; honored := honored s; dl_passed := dl_passed s |}.
 Definition set_resp_read (v : Z) (s : st) : st :=
-  {| cctx := cctx s; cres := cres s; begun := begun s; req_sent := req_sent s; req_closed := req_closed s; cancel_notified := cancel_notified s; cancels_sent := cancels_sent s; resp_read := v; relay_alive := relay_alive s; conn_failed := conn_failed s; resp_avail := resp_avail s; resp_final := resp_final s; hstarted := hstarted s; hctx := hctx s; mex_reg := mex_reg s; resp_failed := resp_failed s; resp_done := resp_done s; requested := requested s; honored := honored s |}.
+  {| cctx := cctx s; cres := cres s; begun := begun s; req_sent := req_sent s; req_closed := req_closed s; cancel_notified := cancel_notified s; cancels_sent := cancels_sent s; resp_read := v; relay_alive := relay_alive s; conn_failed := conn_failed s; resp_avail := resp_avail s; resp_final := resp_final s; hstarted := hstarted s; hctx := hctx s; mex_reg := mex_reg s; resp_failed := resp_failed s; resp_done := resp_done s; requested := requested s; honored := honored s; dl_passed := dl_passed s |}.
 Definition set_relay_alive (v : bool) (s : st) : st :=
-  {| cctx := cctx s; cres := cres s; begun := begun s; req_sent := req_sent s; req_closed := req_closed s; cancel_notified := cancel_notified s; cancels_sent := cancels_sent s; resp_read := resp_read s; relay_alive := v; conn_failed := conn_failed s; resp_avail := resp_avail s; resp_final := resp_final s; hstarted := hstarted s; hctx := hctx s; mex_reg := mex_reg s; resp_failed := resp_failed s; resp_done := resp_done s; requested := requested s; honored := honored s |}.
+  {| cctx := cctx s; cres := cres s; begun := begun s; req_sent := req_sent s; req_closed := req_closed s; cancel_notified := cancel_notified s; cancels_sent := cancels_sent s; resp_read := resp_read s; relay_alive := v; conn_failed := conn_failed s; resp_avail := resp_avail s; resp_final := resp_final s; hstarted := hstarted s; hctx := hctx s; mex_reg := mex_reg s; resp_failed := resp_failed s; resp_done := resp_done s; requested := requested s; honored := honored s; dl_passed := dl_passed s |}.
 Definition set_conn_failed (v : bool) (s : st) : st :=
-  {| cctx := cctx s; cres := cres s; begun := begun s; req_sent := req_sent s; req_closed := req_closed s; cancel_notified := cancel_notified s; cancels_sent := cancels_sent s; resp_read := resp_read s; relay_alive := relay_alive s; conn_failed := v; resp_avail := resp_avail s; resp_final := resp_final s; hstarted := hstarted s; hctx := hctx s; mex_reg := mex_reg s; resp_failed := resp_failed s; resp_done := resp_done s; requested := requested s; honored := honored s |}.
+  {| cctx := cctx s; cres := cres s; begun := begun s; req_sent := req_sent s; req_closed := req_closed s; cancel_notified := cancel_notified s; cancels_sent := cancels_sent s; resp_read := resp_read s; relay_alive := relay_alive s; conn_failed := v; resp_avail := resp_avail s; resp_final := resp_final s; hstarted := hstarted s; hctx := hctx s; mex_reg := mex_reg s; resp_failed := resp_failed s; resp_done := resp_done s; requested := requested s; honored := honored s; dl_passed := dl_passed s |}.
 Definition set_resp_avail (v : Z) (s : st) : st :=
-  {| cctx := cctx s; cres := cres s; begun := begun s; req_sent := req_sent s; req_closed := req_closed s; cancel_notified := cancel_notified s; cancels_sent := cancels_sent s; resp_read := resp_read s; relay_alive := relay_alive s; conn_failed := conn_failed s; resp_avail := v; resp_final := resp_final s; hstarted := hstarted s; hctx := hctx s; mex_reg := mex_reg s; resp_failed := resp_failed s; resp_done := resp_done s; requested := requested s; honored := honored s |}.
+  {| cctx := cctx s; cres := cres s; begun := begun s; req_sent := req_sent s; req_closed := req_closed s; cancel_notified := cancel_notified s; cancels_sent := cancels_sent s; resp_read := resp_read s; relay_alive := relay_alive s; conn_failed := conn_failed s; resp_avail := v; resp_final := resp_final s; hstarted := hstarted s; hctx := hctx s; mex_reg := mex_reg s; resp_failed := resp_failed s; resp_done := resp_done s; requested := requested s; honored := honored s; dl_passed := dl_passed s |}.
 Definition set_resp_final (v : bool) (s : st) : st :=
-  {| cctx := cctx s; cres := cres s; begun := begun s; req_sent := req_sent s; req_closed := req_closed s; cancel_notified := cancel_notified s; cancels_sent := cancels_sent s; resp_read := resp_read s; relay_alive := relay_alive s; conn_failed := conn_failed s; resp_avail := resp_avail s; resp_final := v; hstarted := hstarted s; hctx := hctx s; mex_reg := mex_reg s; resp_failed := resp_failed s; resp_done := resp_done s; requested := requested s; honored := honored s |}.
+  {| cctx := cctx s; cres := cres s; begun := begun s; req_sent := req_sent s; req_closed := req_closed s; cancel_notified := cancel_notified s; cancels_sent := cancels_sent s; resp_read := resp_read s; relay_alive := relay_alive s; conn_failed := conn_failed s; resp_avail := resp_avail s; resp_final := v; hstarted := hstarted s; hctx := hctx s; mex_reg := mex_reg s; resp_failed := resp_failed s; resp_done := resp_done s; requested := requested s; honored := honored s; dl_passed := dl_passed s |}.
 Definition set_hstarted (v : bool) (s : st) : st :=
-  {| cctx := cctx s; cres := cres s; begun := begun s; req_sent := req_sent s; req_closed := req_closed s; cancel_notified := cancel_notified s; cancels_sent := cancels_sent s; resp_read := resp_read s; relay_alive := relay_alive s; conn_failed := conn_failed s; resp_avail := resp_avail s; resp_final := resp_final s; hstarted := v; hctx := hctx s; mex_reg := mex_reg s; resp_failed := resp_failed s; resp_done := resp_done s; requested := requested s; honored := honored s |}.
+  {| cctx := cctx s; cres := cres s; begun := begun s; req_sent := req_sent s; req_closed := req_closed s; cancel_notified := cancel_notified s; cancels_sent := cancels_sent s; resp_read := resp_read s; relay_alive := relay_alive s; conn_failed := conn_failed s; resp_avail := resp_avail s; resp_final := resp_final s; hstarted := v; hctx := hctx s; mex_reg := mex_reg s; resp_failed := resp_failed s; resp_done := resp_done s; requested := requested s; honored := honored s; dl_passed := dl_passed s |}.
 Definition set_hctx (v : Z) (s : st) : st :=
-  {| cctx := cctx s; cres := cres s; begun := begun s; req_sent := req_sent s; req_closed := req_closed s; cancel_notified := cancel_notified s; cancels_sent := cancels_sent s; resp_read := resp_read s; relay_alive := relay_alive s; conn_failed := conn_failed s; resp_avail := resp_avail s; resp_final := resp_final s; hstarted := hstarted s; hctx := v; mex_reg := mex_reg s; resp_failed := resp_failed s; resp_done := resp_done s; requested := requested s; honored := honored s |}.
+  {| cctx := cctx s; cres := cres s; begun := begun s; req_sent := req_sent s; req_closed := req_closed s; cancel_notified := cancel_notified s; cancels_sent := cancels_sent s; resp_read := resp_read s; relay_alive := relay_alive s; conn_failed := conn_failed s; resp_avail := resp_avail s; resp_final := resp_final s; hstarted := hstarted s; hctx := v; mex_reg := mex_reg s; resp_failed := resp_failed s; resp_done := resp_done s; requested := requested s; honored := honored s; dl_passed := dl_passed s |}.
 Definition set_mex_reg (v : bool) (s : st) : st :=
-  {| cctx := cctx s; cres := cres s; begun := begun s; req_sent := req_sent s; req_closed := req_closed s; cancel_notified := cancel_notified s; cancels_sent := cancels_sent s; resp_read := resp_read s; relay_alive := relay_alive s; conn_failed := conn_failed s; resp_avail := resp_avail s; resp_final := resp_final s; hstarted := hstarted s; hctx := hctx s; mex_reg := v; resp_failed := resp_failed s; resp_done := resp_done s; requested := requested s; honored := honored s |}.
+  {| cctx := cctx s; cres := cres s; begun := begun s; req_sent := req_sent s; req_closed := req_closed s; cancel_notified := cancel_notified s; cancels_sent := cancels_sent s; resp_read := resp_read s; relay_alive := relay_alive s; conn_failed := conn_failed s; resp_avail := resp_avail s; resp_final := resp_final s; hstarted := hstarted s; hctx := hctx s; mex_reg := v; resp_failed := resp_failed s; resp_done := resp_done s; requested := requested s; honored := honored s; dl_passed := dl_passed s |}.
 Definition set_resp_failed (v : bool) (s : st) : st :=
-  {| cctx := cctx s; cres := cres s; begun := begun s; req_sent := req_sent s; req_closed := req_closed s; cancel_notified := cancel_notified s; cancels_sent := cancels_sent s; resp_read := resp_read s; relay_alive := relay_alive s; conn_failed := conn_failed s; resp_avail := resp_avail s; resp_final := resp_final s; hstarted := hstarted s; hctx := hctx s; mex_reg := mex_reg s; resp_failed := v; resp_done := resp_done s; requested := requested s; honored := honored s |}.
+  {| cctx := cctx s; cres := cres s; begun := begun s; req_sent := req_sent s; req_closed := req_closed s; cancel_notified := cancel_notified s; cancels_sent := cancels_sent s; resp_read := resp_read s; relay_alive := relay_alive s; conn_failed := conn_failed s; resp_avail := resp_avail s; resp_final := resp_final s; hstarted := hstarted s; hctx := hctx s; mex_reg := mex_reg s; resp_failed := v; resp_done := resp_done s; requested := requested s; honored := honored s; dl_passed := dl_passed s |}.
 Definition set_resp_done (v : bool) (s : st) : st :=
-  {| cctx := cctx s; cres := cres s; begun := begun s; req_sent := req_sent s; req_closed := req_closed s; cancel_notified := cancel_notified s; cancels_sent := cancels_sent s; resp_read := resp_read s; relay_alive := relay_alive s; conn_failed := conn_failed s; resp_avail := resp_avail s; resp_final := resp_final s; hstarted := hstarted s; hctx := hctx s; mex_reg := mex_reg s; resp_failed := resp_failed s; resp_done := v; requested := requested s; honored := honored s |}.
+  {| cctx := cctx s; cres := cres s; begun := begun s; req_sent := req_sent s; req_closed := req_closed s; cancel_notified := cancel_notified s; cancels_sent := cancels_sent s; resp_read := resp_read s; relay_alive := relay_alive s; conn_failed := conn_failed s; resp_avail := resp_avail s; resp_final := resp_final s; hstarted := hstarted s; hctx := hctx s; mex_reg := mex_reg s; resp_failed := resp_failed s; resp_done := v; requested := requested s; honored := honored s; dl_passed := dl_passed s |}.
 Definition set_requested (v : Z) (s : st) : st :=
-  {| cctx := cctx s; cres := cres s; begun := begun s; req_sent := req_sent s; req_closed := req_closed s; cancel_notified := cancel_notified s; cancels_sent := cancels_sent s; resp_read := resp_read s; relay_alive := relay_alive s; conn_failed := conn_failed s; resp_avail := resp_avail s; resp_final := resp_final s; hstarted := hstarted s; hctx := hctx s; mex_reg := mex_reg s; resp_failed := resp_failed s; resp_done := resp_done s; requested := v; honored := honored s |}.
+  {| cctx := cctx s; cres := cres s; begun := begun s; req_sent := req_sent s; req_closed := req_closed s; cancel_notified := cancel_notified s; cancels_sent := cancels_sent s; resp_read := resp_read s; relay_alive := relay_alive s; conn_failed := conn_failed s; resp_avail := resp_avail s; resp_final := resp_final s; hstarted := hstarted s; hctx := hctx s; mex_reg := mex_reg s; resp_failed := resp_failed s; resp_done := resp_done s; requested := v; honored := honored s; dl_passed := dl_passed s |}.
 Definition set_honored (v : Z) (s : st) : st :=
-  {| cctx := cctx s; cres := cres s; begun := begun s; req_sent := req_sent s; req_closed := req_closed s; cancel_notified := cancel_notified s; cancels_sent := cancels_sent s; resp_read := resp_read s; relay_alive := relay_alive s; conn_failed := conn_failed s; resp_avail := resp_avail s; resp_final := resp_final s; hstarted := hstarted s; hctx := hctx s; mex_reg := mex_reg s; resp_failed := resp_failed s; resp_done := resp_done s; requested := requested s; honored := v |}.
+  {| cctx := cctx s; cres := cres s; begun := begun s; req_sent := req_sent s; req_closed := req_closed s; cancel_notified := cancel_notified s; cancels_sent := cancels_sent s; resp_read := resp_read s; relay_alive := relay_alive s; conn_failed := conn_failed s; resp_avail := resp_avail s; resp_final := resp_final s; hstarted := hstarted s; hctx := hctx s; mex_reg := mex_reg s; resp_failed := resp_failed s; resp_done := resp_done s; requested := requested s; honored := v; dl_passed := dl_passed s |}.
+Definition set_dl_passed (v : bool) (s : st) : st :=
+  {| cctx := cctx s; cres := cres s; begun := begun s; req_sent := req_sent s; req_closed := req_closed s; cancel_notified := cancel_notified s; cancels_sent := cancels_sent s; resp_read := resp_read s; relay_alive := relay_alive s; conn_failed := conn_failed s; resp_avail := resp_avail s; resp_final := resp_final s; hstarted := hstarted s; hctx := hctx s; mex_reg := mex_reg s; resp_failed := resp_failed s; resp_done := resp_done s; requested := requested s; honored := honored s; dl_passed := v |}.
 
 Definition init : st :=
   {| cctx := 0; cres := None; begun := false; req_sent := 0; req_closed := false;
      cancel_notified := false; cancels_sent := 0; resp_read := 0;
      relay_alive := true; conn_failed := false; resp_avail := 0; resp_final := false;
      hstarted := false; hctx := 0; mex_reg := false; resp_failed := false; resp_done := false;
-     requested := 0; honored := 0 |}.
+     requested := 0; honored := 0; dl_passed := false |}.
 
 Inductive label :=
 | LBegin        (* caller: BeginCall *)
@@ -181,7 +184,7 @@ Definition step (c : cfg) (s : st) (l : label) : st :=
   match l with
   | LBegin =>
       if begun s || negb (match cres s with None => true | Some _ => false end) then s
-      else if cctx s =? 1 then set_cres (Some c_ErrCodeTimeout) s          (* ttl < 1ms *)
+      else if dl_passed s then set_cres (Some c_ErrCodeTimeout) s       (* ttl < 1ms, checked first *)
       else if negb (cctx s =? 0) then set_cres (Some (GetContextError (cctx s))) s
       else set_begun true s
   | LWFrag => caller_write c s false
@@ -197,6 +200,7 @@ Definition step (c : cfg) (s : st) (l : label) : st :=
   | LCancel => if cctx s =? 0 then set_cctx 2 s else s
   | LDeadline =>
       let s := if cctx s =? 0 then set_cctx 1 s else s in
+      let s := set_dl_passed true s in
       let s := set_relay_alive false s in
       if hstarted s && (hctx s =? 0) then set_mex_reg false (set_hctx 1 s) else s
   | LHFrag => handler_write c s false
@@ -204,7 +208,9 @@ Definition step (c : cfg) (s : st) (l : label) : st :=
   | LHBlackhole =>
       if hstarted s && (hctx s =? 0) then set_mex_reg false (set_hctx 2 s) else s
   | LConnFail =>
-      if negb (begun s) then s else    (* no connection carries the call yet *)
+      (* no connection carries the call yet: directly the caller's connection carries it from
+         BeginCall on; a relay picks (or re-dials) its outbound connection for the first frame *)
+      if negb (if direct c then begun s else hstarted s) then s else
       let s := set_conn_failed true s in
       (* stopExchanges notifies the registered exchange; the watcher goroutine cancels *)
       if hstarted s && mex_reg s && (hctx s =? 0) then set_mex_reg false (set_hctx 2 s) else s
